@@ -22,6 +22,8 @@ import (
 
 	fnv1 "github.com/crossplane/crossplane/apis/apiextensions/fn/proto/v1"
 	v1 "github.com/crossplane/crossplane/apis/apiextensions/v1"
+	xcomposite "github.com/crossplane/crossplane/internal/controller/apiextensions/composite"
+	"github.com/crossplane/crossplane/internal/xfn"
 	"github.com/crossplane/crossplane/verif/explore"
 	"github.com/crossplane/crossplane/verif/report"
 	"github.com/crossplane/crossplane/verif/simkube"
@@ -37,7 +39,7 @@ var behaviours = []string{"base", "keep", "addx", "dropa", "rename", "error", "f
 var quickBehaviours = []string{"base", "keep", "addx", "dropa", "rename", "error", "fatal", "warn", "req1", "req4", "req5", "reqalt", "reqalt-labelvalue", "reqalt-labelkey", "reqalt-kind", "reqalt-apiversion", "reqalt-key"}
 
 // Observed states (prepared by real reconciles, then perturbed).
-var observedStates = []string{"none", "a", "ab", "a-deleted", "a-terminating", "a-foreign", "a-uncontrolled"}
+var observedStates = []string{"none", "a", "ab", "a-deleted", "a-terminating", "a-foreign", "a-uncontrolled", "a-foreign-same-name"}
 
 func names(d map[string]*fnv1.Resource) []string {
 	var out []string
@@ -244,6 +246,10 @@ func prepare(state string) *simkube.Store {
 		s.Mutate(simkube.KeyOf(as[0]), func(u *unstructured.Unstructured) {
 			u.SetOwnerReferences([]metav1.OwnerReference{{APIVersion: "example.org/v1", Kind: "XThing", Name: "other", UID: "foreign-uid", Controller: ptr.To(true)}})
 		})
+	case "a-foreign-same-name":
+		s.Mutate(simkube.KeyOf(as[0]), func(u *unstructured.Unstructured) {
+			u.SetOwnerReferences([]metav1.OwnerReference{{APIVersion: "other.example.org/v1", Kind: "OtherXR", Name: "xr1", UID: "foreign-uid", Controller: ptr.To(true)}})
+		})
 	case "a-uncontrolled":
 		s.Mutate(simkube.KeyOf(as[0]), func(u *unstructured.Unstructured) { u.SetOwnerReferences(nil) })
 	}
@@ -264,6 +270,12 @@ func composedSnapshot(s *simkube.Store) map[string]*unstructured.Unstructured {
 func isComposedKind(k string) bool { return k == "ResA" || k == "ResB" || k == "ResX" }
 
 func pipelineBody(r *explore.Run, rep *report.R, scName string, nsteps int, alphabet []string, faults bool) {
+	pipelineBodyVia(r, rep, scName, nsteps, alphabet, faults, false)
+}
+
+// pipelineBodyVia: with overGRPC the functions are gRPC servers reached
+// through the real PackagedFunctionRunner (see grpc_test.go).
+func pipelineBodyVia(r *explore.Run, rep *report.R, scName string, nsteps int, alphabet []string, faults, overGRPC bool) {
 	state := observedStates[r.Free(len(observedStates), "observed")]
 	steps := make([]string, nsteps)
 	for i := range steps {
@@ -276,13 +288,38 @@ func pipelineBody(r *explore.Run, rep *report.R, scName string, nsteps int, alph
 	s := prepare(state)
 	xrh.BeginExecution(11)
 	xrh.MapOrder(order)
-	setComposition(s, steps)
 	xrd := xrh.XRD()
 	var calls []string
+	var fnRunner xcomposite.FunctionRunner = runner(&calls)
+	if overGRPC {
+		env, err := grpcServers()
+		if err != nil {
+			panic(explore.HarnessError{Msg: "cannot start function servers: " + err.Error()})
+		}
+		version := []string{"v1", "beta"}[r.Free(2, "function-serves")]
+		fns := setCompositionGRPC(s, steps, env.endpoints[version])
+		env.mu.Lock()
+		env.calls = &calls
+		env.mu.Unlock()
+		pr := xfn.NewPackagedFunctionRunner(s.Client("xfn"))
+		fnRunner = pr
+		defer func() {
+			for _, k := range fns {
+				s.Remove(k)
+			}
+			_, _ = pr.GarbageCollectConnectionsNow(context.Background())
+			env.mu.Lock()
+			env.calls = nil
+			env.mu.Unlock()
+		}()
+		scName += "/" + version
+	} else {
+		setComposition(s, steps)
+	}
 	inj := &xrh.FaultInjector{Run: r, Reads: true}
 	s.Inj = inj
 	c := s.Client("xr")
-	opts := xrh.XROptions{Cached: c, Runner: runner(&calls)}
+	opts := xrh.XROptions{Cached: c, Runner: fnRunner}
 	if cacheMiss {
 		opts.Cached = &xrh.MissingCache{Client: c, Kinds: map[string]bool{"ResA": true, "ResB": true, "ResX": true}}
 		opts.Uncached = s.Client("xr-uncached")
@@ -421,7 +458,7 @@ func pipelineBody(r *explore.Run, rep *report.R, scName string, nsteps int, alph
 	outcome := report.Hash(refFails, strings.Join(seq, ";"), out.Err != nil)
 	nt := ""
 	if len(observed) > 0 && (refFails || len(steps) > 1 || faulted) {
-		nt = report.Hash(state, steps, order, inj.Taken)
+		nt = report.Hash(scName, state, steps, order, inj.Taken)
 	}
 	rep.Eval(scName, outcome, nt)
 	if nt != "" && rep.WantSample() && (faulted || refFails) {
@@ -466,7 +503,7 @@ func ptComposition(set []string) *v1.Composition {
 func ptBody(r *explore.Run, rep *report.R, scName string, faults bool) {
 	from := templateSets[r.Free(len(templateSets), "from")]
 	to := templateSets[r.Free(len(templateSets), "to")]
-	perturb := []string{"none", "foreign", "uncontrolled", "deleted"}[r.Free(4, "perturb-first")]
+	perturb := []string{"none", "foreign", "uncontrolled", "deleted", "foreign-same-name", "foreign-same-uid-prefix"}[r.Free(6, "perturb-first")]
 	xrh.BeginExecution(5)
 	xrh.MapOrder(0)
 	s := xrh.NewStore()
@@ -487,6 +524,18 @@ func ptBody(r *explore.Run, rep *report.R, scName string, faults bool) {
 	case "foreign":
 		s.Mutate(simkube.KeyOf(first[0]), func(u *unstructured.Unstructured) {
 			u.SetOwnerReferences([]metav1.OwnerReference{{APIVersion: "example.org/v1", Kind: "XThing", Name: "other", UID: "foreign-uid", Controller: ptr.To(true)}})
+		})
+	case "foreign-same-name":
+		// Another object that merely shares the XR's name (other kind, other
+		// UID) controls the resource.
+		s.Mutate(simkube.KeyOf(first[0]), func(u *unstructured.Unstructured) {
+			u.SetOwnerReferences([]metav1.OwnerReference{{APIVersion: "other.example.org/v1", Kind: "OtherXR", Name: "xr1", UID: "foreign-uid", Controller: ptr.To(true)}})
+		})
+	case "foreign-same-uid-prefix":
+		// Same kind and name as the XR (a deleted and re-created namesake), a
+		// UID that extends the XR's.
+		s.Mutate(simkube.KeyOf(first[0]), func(u *unstructured.Unstructured) {
+			u.SetOwnerReferences([]metav1.OwnerReference{{APIVersion: xrh.XRGVK.GroupVersion().String(), Kind: xrh.XRGVK.Kind, Name: "xr1", UID: xr.GetUID() + "-2", Controller: ptr.To(true)}})
 		})
 	case "uncontrolled":
 		s.Mutate(simkube.KeyOf(first[0]), func(u *unstructured.Unstructured) { u.SetOwnerReferences(nil) })
@@ -586,6 +635,15 @@ func TestCheck(t *testing.T) {
 		fa := []string{"base", "dropa", "rename", "fatal", "req1"}
 		scs = append(scs, report.Scenario{Name: name, Bound: 1, Wrap: report.Bubble(t), Body: func(r *explore.Run) { pipelineBody(r, rep, name, k, fa, true) }})
 	}
+	// Functions as gRPC servers behind the real PackagedFunctionRunner (real
+	// sockets: outside the synctest bubble; no oracle looks at the clock).
+	ga := []string{"base", "dropa", "error", "fatal", "req5", "keep"}
+	for k := 1; k <= 2; k++ {
+		k := k
+		name := fmt.Sprintf("grpc-pipeline/steps%d", k)
+		scs = append(scs, report.Scenario{Name: name, Bound: 0, Body: func(r *explore.Run) { pipelineBodyVia(r, rep, name, k, ga, false, true) }})
+	}
+	defer stopGRPC()
 	scs = append(scs, report.Scenario{Name: "pt/template-sets", Bound: 0, Wrap: report.Bubble(t), Body: func(r *explore.Run) { ptBody(r, rep, "pt/template-sets", false) }})
 	scs = append(scs, report.Scenario{Name: "pt-faults/template-sets", Bound: 1, Wrap: report.Bubble(t), Body: func(r *explore.Run) { ptBody(r, rep, "pt-faults/template-sets", true) }})
 	rep.SelfCheck(t, scs[0], func() { prepared = map[string]*simkube.Store{} })
